@@ -127,6 +127,9 @@ pub struct Spec {
     pub chains: Vec<(u8, L, u32, Vec<u32>)>,
     /// forge variants for the chains with these indices
     pub forge_for: Vec<usize>,
+    /// add operations of a *misbehaving author* to chain 0: validly signed, with a sequence number
+    /// below an existing prune point and a backlink to a later operation of the log
+    pub rewound: bool,
 }
 
 pub fn build(spec: &Spec) -> Universe {
@@ -142,6 +145,24 @@ pub fn build(spec: &Spec) -> Universe {
         if spec.forge_for.contains(&ci) {
             for e in &chain {
                 elems.extend(forged_variants(e, &other, alt));
+            }
+        }
+        if spec.rewound && ci == 0 {
+            // for every prune point P of the chain: an operation signed by the author itself with a
+            // lower sequence number whose backlink names P (or P's successor), with and without flag
+            for p in chain.iter().filter(|e| e.op.header.extensions.prune) {
+                let targets: Vec<&Elem> = chain.iter().filter(|e| e.op.header.seq_num >= p.op.header.seq_num && e.op.header.seq_num <= p.op.header.seq_num + 1).collect();
+                for t in targets {
+                    for seq in [p.op.header.seq_num.saturating_sub(1), 1] {
+                        if seq == 0 || seq >= p.op.header.seq_num {
+                            continue;
+                        }
+                        for flag in [true, false] {
+                            let op = make_op(&k, seq, Some(t.op.hash), Some(format!("rewound-{seq}-{}-{flag}", t.name).as_bytes()), Ext { prune: flag });
+                            elems.push(Elem { name: format!("{}{log}:rewound-seq{seq}-links-to-{}{}", (b'A' + a) as char, t.op.header.seq_num, if flag { "p" } else { "" }), op, log: *log, honest: false, kind: "rewound" });
+                        }
+                    }
+                }
             }
         }
     }
@@ -373,7 +394,7 @@ async fn expand(
                 ));
             }
             // forged copies are never accepted
-            if !e.honest && ok && e.kind != "wrong-id" {
+            if !e.honest && ok && e.kind != "wrong-id" && e.kind != "rewound" {
                 out.violations.push((
                     format!("forged-accepted/{}", e.kind),
                     format!("path {:?}: forged operation {} ({}) was accepted: {res}", replay["path"], e.name, e.kind),
@@ -600,15 +621,15 @@ pub fn run_c03(mut rep: Report) -> i32 {
     // thorough tier explores several two/three-chain universes instead of one large product.
     let specs: Vec<(&str, Spec)> = if thorough {
         vec![
-            ("A-two-prune-points", Spec { chains: vec![(0, 0, 5, vec![2, 4]), (0, 1, 3, vec![])], forge_for: vec![0] }),
-            ("B-prune-at-start", Spec { chains: vec![(1, 0, 4, vec![1]), (1, 1, 3, vec![0, 1])], forge_for: vec![0, 1] }),
-            ("two-authors-same-log-id", Spec { chains: vec![(0, 0, 4, vec![2]), (1, 0, 3, vec![1]), (0, 1, 2, vec![])], forge_for: vec![0, 1] }),
-            ("long-plain-log", Spec { chains: vec![(0, 0, 6, vec![]), (1, 1, 2, vec![0])], forge_for: vec![0] }),
+            ("A-two-prune-points", Spec { chains: vec![(0, 0, 5, vec![2, 4]), (0, 1, 3, vec![])], forge_for: vec![0], rewound: false }),
+            ("B-prune-at-start", Spec { chains: vec![(1, 0, 4, vec![1]), (1, 1, 3, vec![0, 1])], forge_for: vec![0, 1], rewound: false }),
+            ("two-authors-same-log-id", Spec { chains: vec![(0, 0, 4, vec![2]), (1, 0, 3, vec![1]), (0, 1, 2, vec![])], forge_for: vec![0, 1], rewound: false }),
+            ("long-plain-log", Spec { chains: vec![(0, 0, 6, vec![]), (1, 1, 2, vec![0])], forge_for: vec![0], rewound: false }),
         ]
     } else {
         vec![
-            ("forged-copies", Spec { chains: vec![(0, 0, 4, vec![2]), (0, 1, 2, vec![])], forge_for: vec![0] }),
-            ("two-authors-prune-points", Spec { chains: vec![(0, 0, 3, vec![]), (1, 0, 3, vec![1]), (1, 1, 2, vec![0])], forge_for: vec![] }),
+            ("forged-copies", Spec { chains: vec![(0, 0, 4, vec![2]), (0, 1, 2, vec![])], forge_for: vec![0], rewound: false }),
+            ("two-authors-prune-points", Spec { chains: vec![(0, 0, 3, vec![]), (1, 0, 3, vec![1]), (1, 1, 2, vec![0])], forge_for: vec![], rewound: false }),
         ]
     };
     rep.rule = format!(
@@ -631,7 +652,7 @@ pub fn run_c03(mut rep: Report) -> i32 {
 
 pub fn run_c05(mut rep: Report) -> i32 {
     let thorough = rep.thorough();
-    rep.rule = "explicit-state BFS to fixpoint over (stored set, prune floor) for one author/one log of length N with prune flags at every placement of the enumerated family; every delivery (any operation of the log, any time, any number of times) goes through the real ingest_operation followed by prune_entries for accepted prune-flagged operations (the pipeline's LogPrune step); invariant in every state: no stored entry below the highest accepted prune point; non-trivial = distinct non-empty reachable state".into();
+    rep.rule = "explicit-state BFS to fixpoint over (stored set, prune floor) for one author/one log of length N with prune flags at every placement of the enumerated family, plus operations of a misbehaving author (validly signed, sequence number below a prune point, backlink to the prune point or its successor, with and without prune flag); every delivery (any operation of the universe, any time, any number of times) goes through the real ingest_operation followed by prune_entries for accepted prune-flagged operations (the pipeline's LogPrune step); invariant in every state: no stored entry below the highest accepted prune point; non-trivial = distinct non-empty reachable state".into();
     // all placements of prune flags on positions 1..len-1 with at least one flag
     let len: u32 = if thorough { 6 } else { 5 };
     let positions: Vec<u32> = (0..len).collect();
@@ -642,7 +663,7 @@ pub fn run_c05(mut rep: Report) -> i32 {
             continue;
         }
         let tag = format!("len{len}-flags{flags:?}");
-        let spec = Spec { chains: vec![(0, 0, len, flags), (0, 1, 2, vec![1])], forge_for: vec![] };
+        let spec = Spec { chains: vec![(0, 0, len, flags), (0, 1, 2, vec![1])], forge_for: vec![], rewound: true };
         specs.push((tag, build(&spec)));
     }
     let families = specs.len();
